@@ -6,7 +6,8 @@
 From Coq Require Import ZArith QArith List.
 From PV Require Import Lib.Py Model.Ops Model.LookupCore Proofs.C16.
 From PV Require Import Proofs.C10Order Proofs.C16Order Proofs.C16Sorted Proofs.C16Desc
-  Proofs.C16Lookup Proofs.C16Wild.
+  Proofs.C16Lookup Proofs.C16Wild Proofs.C16Wrap.
+From PV Require Model.Lookup.
 From PV Require Gen.excelutil Gen.lookup.
 Import ListNotations.
 Open Scope Z_scope.
@@ -309,3 +310,33 @@ Theorem C16_match0_wildcard : forall v x p a, lv_key v = Ok x -> fst x = (1, VSt
                   /\ forall n' c', (n' < n)%nat -> nth_error a n' = Some c' -> ~ wild_hit p c').
 Proof. exact match0_wildcard. Qed.
 Print Assumptions C16_match0_wildcard.
+
+(* The functions as pycel calls them (Model/Lookup.v: the apply_meta wrappers
+   around the regenerated bodies).  plain_lv v: v is a scalar and not an error
+   code; error_lv v: v is an error code.  With an integer index / match type
+   (and a logical range_lookup) the wrappers hand a plain lookup value through
+   unchanged — whatever the table holds — and return an error-code lookup value
+   itself.  Other argument shapes (array lookup value, text/float/logical
+   index, …) stay correspondence-only. *)
+Theorem C16_wrapped_match : forall v arr mt, plain_lv v ->
+  Lookup.X_match [v; arr; VInt mt] = lookup.f_match v arr (VInt mt).
+Proof. exact X_match_plain. Qed.
+Print Assumptions C16_wrapped_match.
+Theorem C16_wrapped_vlookup : forall v t k r, plain_lv v ->
+  Lookup.X_vlookup [v; t; VInt k; VBool r] = lookup.f_vlookup v t (VInt k) (VBool r).
+Proof. exact X_vlookup_plain. Qed.
+Print Assumptions C16_wrapped_vlookup.
+Theorem C16_wrapped_hlookup : forall v t k r, plain_lv v ->
+  Lookup.X_hlookup [v; t; VInt k; VBool r] = lookup.f_hlookup v t (VInt k) (VBool r).
+Proof. exact X_hlookup_plain. Qed.
+Print Assumptions C16_wrapped_hlookup.
+Theorem C16_wrapped_lookup : forall v arr rr, plain_lv v ->
+  Lookup.X_lookup [v; arr; rr] = lookup.f_lookup v arr rr
+  /\ Lookup.X_lookup [v; arr] = lookup.f_lookup v arr VNone.
+Proof. exact X_lookup_plain. Qed.
+Print Assumptions C16_wrapped_lookup.
+Theorem C16_error_lookup_value : forall v arr mt t k r rr, error_lv v ->
+  Lookup.X_match [v; arr; VInt mt] = Ok v /\ Lookup.X_vlookup [v; t; VInt k; VBool r] = Ok v
+  /\ Lookup.X_lookup [v; arr; rr] = Ok v.
+Proof. exact X_error_lookup_value. Qed.
+Print Assumptions C16_error_lookup_value.
